@@ -15,6 +15,10 @@ def _erase_primitive(n, env, fn, st):
     sh = n.get("short") or ""
     if sh.startswith("EraseVectorIndices") and n.get("args"):
         p = env.path(n["args"][0])
+        # `EraseVectorIndices(uvSets[0], ...)` erases one element of an array of per-vertex arrays, not all of them: the canonical
+        # path (`uvSets[*]`) would claim the whole family
+        if any(x["k"] == "Subscript" and is_node(x.get("idx")) and x["idx"].get("val") is not None for x in walk(n["args"][0])):
+            return [Event(p, "erase-one", {"fn": fn["name"], "loc": n.get("loc"), "file": fn.get("file")})]
         return [Event(p, "erase", {"fn": fn["name"], "loc": n.get("loc"), "file": fn.get("file")})]
     if n.get("ext"):
         return []
@@ -110,7 +114,7 @@ def run(F, chk):
         erased = set()
         if final:
             for ev in E.events(final[0]["id"]):
-                if ev.path is not None:
+                if ev.path is not None and ev.kind == "erase":
                     erased.add(ev.path)
         for p, ev in sorted(varrays.items(), key=lambda x: render(x[0])):
             ok = p in erased
